@@ -9,7 +9,7 @@ theorem St.set_other (s : St S) (t c : Tid) (x : Tr S) (h : c ≠ t) : (s.set t 
 
 /-! ### every gate leaves the key of the slot alone (it only advances the session state) -/
 
-theorem sendRawGate_key (t : Tid) (x : Tr S) (p : Bool) : (sendRawGate t x p).1.map S.keyOf = x.key := by
+theorem sendRawGate_key (t : Tid) (x : Tr S) (p e : Bool) : (sendRawGate t x p e).1.map S.keyOf = x.key := by
   unfold sendRawGate Tr.key; split <;> (try split) <;> simp_all [S.protectRtp_key]
 theorem sendRtpGate_key (t : Tid) (x : Tr S) : (sendRtpGate t x).1.map S.keyOf = x.key := by
   unfold sendRtpGate Tr.key; split <;> simp_all [S.protectRtp_key]
@@ -63,12 +63,13 @@ theorem step_frame (s : St S) (o : Op S) (c : Tid) :
     · have h' : ¬ t = c := fun e => h e.symm
       simp [step, St.set, h, h', lastInstalled]
   | sendRtp t => simpa [step, own, lastInstalled] using upd t _ (sendRtpGate_key t (s t))
-  | sendRaw t p => simpa [step, own, lastInstalled] using upd t _ (sendRawGate_key t (s t) p)
+  | sendRaw t p e => simpa [step, own, lastInstalled] using upd t _ (sendRawGate_key t (s t) p e)
   | sendRtcp t => simpa [step, own, lastInstalled] using upd t _ (sendRtcpGate_key t (s t))
   | syncBye t => simpa [step, own, lastInstalled] using upd t _ (syncByeGate_key t (s t))
   | setBridge t b => by_cases h : c = t <;> simp [step, St.set, h, lastInstalled, Tr.key]
   | clearBridge t => by_cases h : c = t <;> simp [step, St.set, h, lastInstalled, Tr.key]
   | setFlags t l r ob => by_cases h : c = t <;> simp [step, St.set, h, lastInstalled, Tr.key]
+  | setAbsSendTime t on => by_cases h : c = t <;> simp [step, St.set, h, lastInstalled, Tr.key]
   | close t =>
     have hk := syncByeGate_key t (closed (s t))
     simp only [step, own, lastInstalled]
@@ -161,7 +162,7 @@ def GateOk (t : Tid) (x : Tr S) (evs : List Ev) : Prop :=
     c = t ∧ (x.required = true → ∃ k, x.key = some k ∧ f = .prot t k) ∧
     (∀ k, x.key = some k → f = .prot t k) ∧ (x.key = none → f = .clear ∧ x.required = false)
 
-theorem sendRawGate_ok (t : Tid) (x : Tr S) (p : Bool) : GateOk t x (sendRawGate t x p).2 := by
+theorem sendRawGate_ok (t : Tid) (x : Tr S) (p e : Bool) : GateOk t x (sendRawGate t x p e).2 := by
   intro c m f src h
   unfold sendRawGate at h
   cases hx : x.sess with
@@ -172,7 +173,8 @@ theorem sendRawGate_ok (t : Tid) (x : Tr S) (p : Bool) : GateOk t x (sendRawGate
     simp_all [Tr.key]
   | some se =>
     rw [hx] at h
-    cases p
+    generalize (p && (!x.absSendTime || e)) = q at h
+    cases q
     · simp at h
     · by_cases hp : (S.protectRtp se).2 = true <;> simp [hp] at h
       obtain ⟨rfl, rfl, rfl, rfl⟩ := h
